@@ -4,7 +4,7 @@
  * synthesis of <pkg>/<file>_pb2.py modules for dependency files (no protoc in the sandbox)
  * materialising an emitted library into a scratch tree and running gv.impl.calldrive on it
 """
-import importlib.util, os, re, base64
+import importlib.util, json, os, re, base64
 from google.protobuf import descriptor_pb2 as dp
 from google.api import client_pb2
 from .. import env, gen, apigen
@@ -119,8 +119,45 @@ def materialise(req, res, tag):
     return root
 
 
-def drive(root, package, calls, timeout=600):
-    return gen.impl("calldrive", {"root": root, "package": package, "calls": calls}, timeout=timeout)
+class HarnessError(Exception):
+    """the driver itself (child process, loopback server, bookkeeping) misbehaved: nothing can be concluded about /repo"""
+
+
+def drive(root, package, calls, timeout=1800, attempts=2):
+    """Run the calls in one child. The answer is checked for completeness (one result per spec, in order; every server record
+    attributed to a spec; a successful call has a result); an incomplete answer or a crashed child is a harness error: retried
+    once, then raised as HarnessError (reported as such, never as a model mismatch). Anomalies are logged with the raw answer."""
+    last = None
+    for attempt in range(attempts):
+        raw = None
+        try:
+            raw = gen.impl("calldrive", {"root": root, "package": package, "calls": calls}, timeout=timeout)
+            results, h = raw["results"], raw["harness"]
+            problems = []
+            if [r.get("id") for r in results] != [c.get("id") for c in calls]:
+                problems.append(f"{len(results)} results for {len(calls)} specs, or in another order")
+            if h.get("unattributed"):
+                problems.append(f"server records without a call id: {h['unattributed'][:2]}")
+            if h.get("unknown_ids"):
+                problems.append(f"server records for unknown call ids: {h['unknown_ids']}")
+            for r, c in zip(results, calls):
+                if r.get("ok") and "result" not in r and not c.get("no_call"):
+                    problems.append(f"call {r.get('id')} succeeded without a result")
+                if "calls" not in r:
+                    problems.append(f"call {r.get('id')} has no server-side record list")
+            if not problems:
+                return results
+            last = "; ".join(problems[:4])
+        except Exception as e:  # noqa  child crashed, timed out, or printed no JSON
+            last = f"{type(e).__name__}: {str(e)[-700:]}"
+        try:
+            os.makedirs(os.path.join(env.VERIF, "scratch"), exist_ok=True)
+            with open(os.path.join(env.VERIF, "scratch", "harness_anomalies.log"), "a") as f:
+                f.write(json.dumps({"attempt": attempt, "package": package, "n_calls": len(calls), "problem": last,
+                                    "raw": json.dumps(raw)[:20000] if raw is not None else None}) + "\n")
+        except OSError:
+            pass
+    raise HarnessError(f"driver answer incomplete after {attempts} attempts: {last}")
 
 
 def b64(m):
